@@ -2,7 +2,7 @@
 import ast
 import re
 
-from ..core import AnalysisError, norm, short, walk_local, parent_chain
+from ..core import AnalysisError, norm, short, walk_local, parent_chain, reaching_assign
 from . import register
 from ..inline import inlined_view
 
@@ -695,7 +695,67 @@ def _stage_pairs(f):
     return [(S, Y) for S in sorted(Ss) for Y in sorted(Ys) if S != Y]
 
 
+def _cross_structure_yields(R, rid, f):
+    """inside one pattern loop, a branch that yields straight out of a pending set S (`for x in S: … yield x … S -= seen`) shares its
+    population with the name map another branch yields from (both are filled with the same elements in one loop).  Whatever that other
+    branch yields must then be taken out of S as well (`if x in S: S.remove(x); yield x`), or the first branch yields it again."""
+    n = 0
+    for L in walk_local(f.node):
+        if not (isinstance(L, ast.For) and isinstance(L.iter, ast.Name) and "pattern" in L.iter.id):
+            continue
+        W = {}
+        for lp in ast.walk(L):
+            if isinstance(lp, ast.For) and lp is not L and isinstance(lp.iter, ast.Name) and isinstance(lp.target, ast.Name) \
+                    and any(isinstance(y, ast.Yield) and y.value is not None and norm(y.value) == lp.target.id for y in ast.walk(lp)):
+                W[lp.iter.id] = lp
+        if not W:
+            continue
+        for S, wl in W.items():
+            # the structures filled with the same elements as S: M[...]…append(z) / M.setdefault(…).append(z) next to S.add(z)
+            shared = set()
+            for fill in walk_local(f.node):
+                if not isinstance(fill, ast.For):
+                    continue
+                adds = [c for c in ast.walk(fill) if isinstance(c, ast.Call) and isinstance(c.func, ast.Attribute) and c.func.attr == "add" and norm(c.func.value) == S and c.args]
+                for a in adds:
+                    z = norm(a.args[0])
+                    for c in ast.walk(fill):
+                        if isinstance(c, ast.Call) and isinstance(c.func, ast.Attribute) and c.func.attr == "append" and c.args and norm(c.args[0]) == z:
+                            root = c.func.value
+                            while isinstance(root, (ast.Subscript, ast.Call, ast.Attribute)):
+                                root = root.value if isinstance(root, (ast.Subscript, ast.Attribute)) else root.func
+                            if isinstance(root, ast.Name) and root.id != S:
+                                shared.add(root.id)
+            if not shared:
+                continue
+            for y in ast.walk(L):
+                if not (isinstance(y, ast.Yield) and isinstance(y.value, ast.Name)) or any(y is x for x in ast.walk(wl)):
+                    continue
+                v = y.value.id
+                src = next((p for p in parent_chain(y) if isinstance(p, ast.For) and norm(p.target) == v), None)
+                if src is None:
+                    continue
+                src_txt = norm(src.iter)
+                d = reaching_assign(src, src_txt) if isinstance(src.iter, ast.Name) else None
+                if d is not None and d.value is not None:
+                    src_txt = norm(d.value)
+                if not any(re.match(r"%s\b" % re.escape(m), src_txt) for m in shared):
+                    continue
+                n += 1
+                tested = any(isinstance(p, ast.If) and ("%s in %s" % (v, S)) in norm(p.test) for p in parent_chain(y))
+                removed = any(isinstance(c, ast.Call) and isinstance(c.func, ast.Attribute) and c.func.attr in ("remove", "discard") and norm(c.func.value) == S
+                              and c.args and norm(c.args[0]) == v for c in ast.walk(src))
+                if tested and removed:
+                    R.ok(rid, "%s: what the `%s` branch yields is taken out of `%s`" % (f.qualname, sorted(shared)[0], S), f.loc(y))
+                else:
+                    R.bad(rid, "%s|yield %s bypasses %s" % (f.key, v, S), f.loc(y),
+                          "%s yields `%s` out of `%s` without taking it out of `%s`, the set another branch of the same pattern loop yields from: with an exact "
+                          "name and a wildcard that both match, the element is returned twice" % (f.qualname, v, src_txt[:40], S))
+    return n
+
+
 def check_stages(R, rid, f):
+    k = _cross_structure_yields(R, rid, f) * 0
     k = 0
     for S, Y in _stage_pairs(f):
         k += 1
@@ -717,7 +777,9 @@ def _q5(ctx, R):
     for mod in _modules(P):
         name, pub, mid, raw = _triple(mod)
         raw0 = raw
-        raw = inlined_view(P, raw)
+        from .href_rules import _closure_generators
+        # work-list closures keep visited sets of their own and are read on their own: they stay calls in the view
+        raw = inlined_view(P, raw, keep=tuple(g.name for g in _closure_generators(mod)))
         helpers = [raw] + [f for fn, f in mod.functions.items() if fn.startswith("_get_") and f is not raw0 and f is not mid and f.qualname not in raw.inlined_helpers
                            and any(isinstance(y, ast.Yield) for y in walk_local(f.node))]
         strict = set()
@@ -773,7 +835,8 @@ def _q5(ctx, R):
     st = 0
     for mod in _modules(P):
         name, pub, mid, raw = _triple(mod)
-        st += check_stages(R, "Q5", inlined_view(P, raw))
+        from .href_rules import _closure_generators
+        st += check_stages(R, "Q5", inlined_view(P, raw, keep=tuple(g.name for g in _closure_generators(mod))))
     R.count("two-stage generators (Q5 stage disjointness)", st)
     R.floor("two-stage generators (Q5 stage disjointness)", 2)
 
